@@ -731,6 +731,19 @@ where
 // TESTS
 // =============================================================================
 
+/// Raw mutator for stored-state fault injection (verification builds only).
+#[cfg(delaunay_verif)]
+impl<T, U, const D: usize> Vertex<T, U, D>
+where
+    T: CoordinateScalar,
+    U: DataType,
+{
+    /// Overwrite the stored coordinates without any validation (may be non-finite).
+    pub fn verif_set_coords(&mut self, coords: [T; D]) {
+        self.point = Point::new(coords);
+    }
+}
+
 #[cfg(test)]
 mod tests {
     use super::*;
